@@ -1,6 +1,8 @@
 package vc
 
 import (
+	"os"
+	"runtime/debug"
 	"sync/atomic"
 	"time"
 	"fmt"
@@ -307,6 +309,9 @@ var abortFlag atomic.Int32
 
 func checkAbort() {
 	if abortFlag.Load() != 0 {
+		if os.Getenv("GOVC_ABORTSTACK") != "" {
+			os.Stderr.Write(debug.Stack())
+		}
 		panic(unsupportedErr{"VC generation exceeded the memory budget (path explosion)"})
 	}
 }
